@@ -692,6 +692,50 @@ fn native_spec() {
             Err(e) if e.kind() == ErrorKind::ValueValidation => {}
             other => println!("SPEC-REPLAY MISMATCH target={target} case=--n x7 with a u8 parser: {:?}", other.map(|_| ()).map_err(|e| e.kind())),
         }
+    } else if target == "source_precedence" {
+        // C06: command line > environment > conditional default > default, per argument; nothing is overridden or appended to
+        use crate::parser::ValueSource;
+        std::env::set_var("VERIF_SP_ENV", "from-env");
+        for cli in [false, true] {
+            for env in [false, true] {
+                for cond in [false, true] {
+                    let mut o = Arg::new("o").long("o").action(ArgAction::Set).default_value("dflt").default_value_ifs([("k", "1", Some("cond1")), ("k", "2", Some("cond2"))]);
+                    if env {
+                        o = o.env("VERIF_SP_ENV");
+                    }
+                    let cmd = Command::new("p").arg(o).arg(Arg::new("k").long("k").action(ArgAction::Set));
+                    let mut argv = vec!["p"];
+                    if cli {
+                        argv.extend(["--o", "from-cli"]);
+                    }
+                    if cond {
+                        argv.extend(["--k", "1"]);
+                    }
+                    let (want_v, want_s) = if cli { ("from-cli", ValueSource::CommandLine) } else if env { ("from-env", ValueSource::EnvVariable) }
+                        else if cond { ("cond1", ValueSource::DefaultValue) } else { ("dflt", ValueSource::DefaultValue) };
+                    match cmd.try_get_matches_from(argv.clone()) {
+                        Ok(m) => {
+                            let got: Vec<String> = m.get_many::<String>("o").map(|v| v.cloned().collect()).unwrap_or_default();
+                            if got != [want_v] || m.value_source("o") != Some(want_s) {
+                                println!("SPEC-REPLAY MISMATCH target=source_precedence case={argv:?} env={env}: values {got:?} source {:?}, expected [{want_v:?}] {want_s:?}", m.value_source("o"));
+                            }
+                        }
+                        Err(e) => println!("SPEC-REPLAY MISMATCH target=source_precedence case={argv:?} env={env}: rejected {:?}", e.kind()),
+                    }
+                }
+            }
+        }
+        // Append: env/default values are not appended to command-line occurrences
+        let cmd = Command::new("p").arg(Arg::new("a").long("a").action(ArgAction::Append).env("VERIF_SP_ENV").default_value("dflt"));
+        match cmd.try_get_matches_from(["p", "--a", "x", "--a", "y"]) {
+            Ok(m) => {
+                let got: Vec<String> = m.get_many::<String>("a").map(|v| v.cloned().collect()).unwrap_or_default();
+                if got != ["x", "y"] {
+                    println!("SPEC-REPLAY MISMATCH target=source_precedence case=Append with env and default, two occurrences: {got:?}");
+                }
+            }
+            Err(e) => println!("SPEC-REPLAY MISMATCH target=source_precedence case=Append rejected {:?}", e.kind()),
+        }
     } else if target == "match_arg_error" {
         // C10: the error kind names a rule the input really breaks
         for acws in [false, true] {
